@@ -178,6 +178,24 @@ def states(N, a, j=0, J=1):
                         yield (core, h, chg, pre, suf, pr)
 
 
+def numeral_states():
+    """every digit in every numeric position: subscripts 2..120 and all one-decimal forms d.d, charges ±1..±30,
+    hydrate multipliers 2..30 (so that each digit glyph 0-9 occurs as a subscript and as a superscript)"""
+    cnts = [str(n) for n in range(2, 121)] + ["%d.%d" % (a, b) for a in range(0, 10) for b in range(1, 10)] + ["12.25", "0.125"]
+    for el in ("H", "Co"):
+        for k in cnts:
+            yield ((("el", el, k),), None, None, None, None, None)
+            yield ((("gr", "()", (("el", el, ""), ("el", "O", "2")), k),), None, None, None, None, None)
+    for q in range(1, 31):
+        for sign in "+-":
+            chg = sign + (str(q) if q > 1 else "")
+            yield ((("el", "Fe", ""),), None, chg, None, None, None)
+            yield ((("el", "Fe", ""), ("el", "O", "4")), None, sign + str(q), None, "(aq)", None)
+    for m in range(2, 31):
+        for sep in HYD:
+            yield ((("el", "Na", "2"), ("el", "S", "")), (sep, str(m), (("el", "H", "2"), ("el", "O", ""))), None, None, None, None)
+
+
 # ------------------------------------------------------------------------------------------ presentation
 def _usub(x):
     return "".join("₀₁₂₃₄₅₆₇₈₉"[int(ch)] if ch != "." else "." for ch in x)
